@@ -1,5 +1,7 @@
 """Properties about the text parser, auto-detection, formatting and constructors:
 C01 C03 C04 C05 C06 C08 C12 C15 C16 C18 C19."""
+import os
+
 from . import common as C
 from . import v1gen as V
 from . import v2gen as G
@@ -405,7 +407,7 @@ class C05(Prop):
 
 class C06(Prop):
     id = "C06"
-    required = ["C06.auto_def", "C06.accept_iff", "C06.incomplete_iff", "C06.never_both"]
+    required = ["C06.auto_def", "C06.accept_iff", "C06.incomplete_iff", "C06.never_both", "C06.parse_verdict", "C06.verdict_table"]
     rule = ("union of v1 and v2 generators plus mixtures (signature + text, text + v2 header, every signature prefix), each through auto / v1b / v2; "
             "non-trivial = distinct inputs on which the two dedicated parsers give different classes")
 
@@ -434,14 +436,35 @@ class C06(Prop):
         return ops
 
     def project(self, op, line):
-        if op.startswith("auto"):
-            tag, r, ai, ac = auto_res(line)
-            return (cls(r), tag if r["k"] == "ok" else None, okview(r), ai, ac)
-        r = res1(line)
-        return (cls(r), okview(r))
+        # C06 pins no result as a function of the input alone: it relates the auto-detected result to
+        # the dedicated parsers' results on the same input. What is compared with the model is therefore
+        # the composition (`Auto.verdict`, theorem C06.parse_verdict) applied to the implementation's own
+        # dedicated verdicts - see `relation` - and not the three absolute results.
+        return None
 
     def relation(self, ops, impl):
         out = []
+        # the model's composition evaluated on the implementation's dedicated verdicts (op `autoc`)
+        triples = []
+        for i in range(0, len(ops), 3):
+            tag, ra, ai, ac = auto_res(impl[i])
+            c1, c2, ca = cls(res1(impl[i + 1])), cls(res1(impl[i + 2])), cls(ra)
+            triples.append((c2, c1, tag, ca))
+        distinct = sorted(set((c2, c1) for c2, c1, _, _ in triples if "panic" not in (c2, c1)))
+        verdicts = {}
+        if distinct and os.path.exists(C.DRIVER_BIN):
+            ml = C.run_model_only(["autoc %s %s" % p_ for p_ in distinct], "autoc")
+            for p_, l_ in zip(distinct, ml):
+                _, kv = C.fields(l_)
+                verdicts[p_] = (kv.get("tag"), kv.get("cls"))
+        for i in range(0, len(ops), 3):
+            c2, c1, tag, ca = triples[i // 3]
+            want = verdicts.get((c2, c1))
+            # the tag is pinned for accepted headers only ("tags it with the matching version")
+            if want is not None and (ca != want[1] or (ca == "ok" and tag != want[0])):
+                out.append(Violation("projection", [ops[i], ops[i + 1], ops[i + 2]], [impl[i][:200], impl[i + 1][:200], impl[i + 2][:200]],
+                                     "autoc %s %s -> tag=%s cls=%s" % (c2, c1, want[0], want[1]),
+                                     "auto-detected result (%s, %s) is not the model's composition of the dedicated verdicts" % (tag, ca)))
         for i in range(0, len(ops), 3):
             tag, ra, ai, ac = auto_res(impl[i])
             r1, r2 = res1(impl[i + 1]), res1(impl[i + 2])
@@ -861,9 +884,11 @@ class C18(Prop):
         return ops
 
     def project(self, op, line):
+        # every generated input is frozen; C18 pins that the verdict is complete, not which one it is
+        fin = lambda c: c if c in ("inc", "panic") else "complete"
         if op.startswith("v1s"):
-            return tuple(cls(res1(p)) for p in line.split(" | ")[:2])
-        return cls(res1(line))
+            return tuple(fin(cls(res1(p))) for p in line.split(" | ")[:2])
+        return fin(cls(res1(line)))
 
     def relation(self, ops, impl):
         out = []
@@ -874,7 +899,7 @@ class C18(Prop):
                 continue
             p = self.project(op, il)
             for k in (p if isinstance(p, tuple) else (p,)):
-                if k not in ("ok", "term"):
+                if k != "complete":
                     out.append(Violation("relation", op, il[:300], None, "the line is frozen (first CR + 1 byte seen, or 107 bytes without CR) but the result is %s" % k))
                     break
         return out
